@@ -927,26 +927,37 @@ def _canonical_fields(j):
     ren = {}
     for a in j['adts']:
         r = ref.get(a['path'])
-        if r is None or a.get('kind') != 'Struct' or len(a['variants']) != 1 or len(r) != 1:
+        if r is None or a.get('kind') not in ('Struct', 'Enum') or len(a['variants']) != len(r):
             continue
-        fs = a['variants'][0]['fields']
-        if len(fs) != len(r[0]) or any(fs[i]['ty'] != r[0][i][1] for i in range(len(fs))):
-            continue
-        have = [x['name'] for x in fs]
-        want = [x[0] for x in r[0]]
-        if have == want or sorted(have) == sorted(want):
-            continue
-        for i, (h, w) in enumerate(zip(have, want)):
-            if h != w:
-                ren[(a['path'], i)] = w
-                fs[i]['name'] = w
+        for vi, v in enumerate(a['variants']):
+            fs = v['fields']
+            if len(fs) != len(r[vi]) or any(fs[i]['ty'] != r[vi][i][1] for i in range(len(fs))):
+                continue
+            have = [x['name'] for x in fs]
+            want = [x[0] for x in r[vi]]
+            if have == want or sorted(have) == sorted(want):
+                continue
+            for i, (h, w) in enumerate(zip(have, want)):
+                if h != w:
+                    ren[(a['path'], v['name'] if a['kind'] == 'Enum' else None, i)] = w
+                    fs[i]['name'] = w
     if not ren:
         return
 
     def fix_place(p):
+        var = None
         for pr in p.get('pr', []):
-            if isinstance(pr, dict) and 'f' in pr and (pr.get('of'), pr.get('i')) in ren:
-                pr['f'] = ren[(pr['of'], pr['i'])]
+            if isinstance(pr, dict) and 'dc' in pr:
+                var = pr['dc']
+                continue
+            if isinstance(pr, dict) and 'f' in pr:
+                k1 = (pr.get('of'), None, pr.get('i'))
+                k2 = (pr.get('of'), var, pr.get('i'))
+                if k1 in ren:
+                    pr['f'] = ren[k1]
+                elif k2 in ren:
+                    pr['f'] = ren[k2]
+            var = None
 
     def fix_op(o):
         if isinstance(o, dict) and o.get('k') in ('copy', 'move'):
@@ -966,7 +977,7 @@ def _canonical_fields(j):
                 for o in r.get('ops', []) or []:
                     fix_op(o)
                 if r.get('k') == 'agg' and r.get('agg') == 'adt' and r.get('fields'):
-                    r['fields'] = [ren.get((r['adt'], i), fn) for i, fn in enumerate(r['fields'])]
+                    r['fields'] = [ren.get((r['adt'], None, i), ren.get((r['adt'], r.get('variant'), i), fn)) for i, fn in enumerate(r['fields'])]
             t = blk['term']
             if t['k'] == 'call':
                 for a in t['args']:
